@@ -841,6 +841,14 @@ def _split_parts_call(fn, a, k, e):
     raise NotTranslatable("split_parts call shape")
 
 
+TARGETS.append(dict(
+    module="pyp0f.net.layers.http.http", func="HTTP.software", file="HttpSoftware", lean="softwareOf", import_="P0f.Model.Http", open="P0f P0f.Py",
+    decorators=("property",), pyparams=["self"], params=[("ph", "List Hdr")], ret="Opt:Bytes", lean_ret="Option Bytes",
+    env={"self.headers": ("ph", "List:Rec:Hdr")}, records=HDR_RECORDS, bytes_elem="Char", value_or=True, receivers={"self": None},
+    lean_types={"Bytes": "Bytes", "Rec:Hdr": "Hdr"},
+    alias="def softwareOf (ph : List Hdr) : Option Bytes := P0f.softwareOf ph\n",
+))
+
 # ---------------------------------------------------------------------------------------------- C09 / C06: HTTP signature texts
 def _sighdr_ctor(fn, args, kw, env):
     if args or set(kw) != {"name", "value", "is_optional"}:
